@@ -184,7 +184,24 @@ def generator_text_workload(ctx):
     nruns = 40 if ctx.tier == 'quick' else 600
     for q in range(nruns):
         mp = rng.choice(['hr', 'sm', 'spa', 'ha'])
-        v = ge.legal_vector(rng, mp=mp, max_n1=8, max_n2=10, max_n3=6)
+        big = rng.random() < 0.3
+        v = ge.legal_vector(rng, mp=mp, max_n1=13 if big else 8, max_n2=13 if big else 10, max_n3=12 if big else 6)
+        if big and mp != 'sm':
+            v['n1'] = rng.randint(10, 13)
+            v['n2'] = rng.randint(11, 13)
+            v['uq'] = v['n2'] + rng.randint(0, 4)
+            v.pop('lq', None)
+            v['pmin'] = rng.randint(1, 3)
+            v['pmax'] = rng.randint(v['pmin'], 6)
+            if mp == 'spa':
+                v['n3'] = rng.choice([11, 12, 3])
+                v['luq'] = max(v.get('luq', 1), v['n3'])
+                v.pop('lt', None)
+                v.pop('llq', None)
+        elif big:
+            v['n1'] = rng.randint(11, 13)
+            v['pmin'] = rng.randint(1, 3)
+            v['pmax'] = rng.randint(v['pmin'], 6)
         if rng.random() < 0.5 and mp in ('hr', 'spa'):
             v['n1'] = rng.randint(1, 3)          # sparse: second-side agents nobody ranks
             v['pmin'] = 1
@@ -241,6 +258,22 @@ def generator_text_workload(ctx):
                         ctx.finding(en.F('C13', 'generated_ranks_read_back', 'student list %s with decisions %s read back as %s with ranks %s' % (
                             pl, tt, [p.projectID for p in srow], [p.rank_student for p in srow])), case)
                         break
+                if per_inst == 2:
+                    # second side: rank of student s for lecturer/hospital k as the recorded decisions imply
+                    want2 = {}
+                    for k, (pl, tt) in enumerate(zip(calls[i * per_inst + 1][1], calls[i * per_inst + 1][2])):
+                        for sid, rk in zip(pl, exp_ranks(tt, len(pl))):
+                            want2[(k + 1, sid)] = rk
+                    ctx.cnt('generated_second_side_read_back')
+                    for srow in s.model.pairs:
+                        for p in srow:
+                            if want2.get((p.lecturerID, p.studentID)) != getattr(p, 'rank_lecturer', None):
+                                ctx.finding(en.F('C13', 'generated_ranks_read_back', 'second side: student %d is read with rank %s by lecturer/hospital %d; '
+                                                 'the written list and tie decisions imply rank %s' % (p.studentID, getattr(p, 'rank_lecturer', None),
+                                                                                                      p.lecturerID, want2.get((p.lecturerID, p.studentID)))), case)
+                                raise StopIteration
+            except StopIteration:
+                pass
             except BaseException as e:
                 ctx.finding(en.F('C13', 'generated_file_loads', 'solver cannot load the generated file: %s: %s' % (type(e).__name__, e)), case)
         ctx.nontrivial('gen/%d/%d' % (ctx.shard, q))
